@@ -7,7 +7,7 @@ dst = f'/verif/seeded/{mid}'
 shutil.rmtree(dst, ignore_errors=True)
 shutil.copytree(src, dst, ignore=shutil.ignore_patterns('baseline.log', 'target', '*.o'))
 meta = json.load(open(f'{dst}/meta.json'))
-conf = [l for l in open('/tmp/mut/confirm.log') if l.startswith(mid + ' ')]
+conf = [l for l in open(os.environ.get('CONFIRM_LOG', '/tmp/mut/confirm.log')) if l.startswith(mid + ' ')]
 meta['confirmed_in_scratch_worktree'] = conf[-1].strip() if conf else 'NOT CONFIRMED'
 meta['checked_with'] = {'detected_by': [] if det == '-' else det.split(','), 'note': note,
                         'how': f'git -C /repo apply seeded/{mid}/patch.diff; ./check <id> --tier quick; git -C /repo checkout -- .'}
